@@ -5,6 +5,7 @@ import (
 	"fmt"
 	"math"
 	"math/rand"
+	"reflect"
 	"regexp"
 	"strconv"
 	"strings"
@@ -472,15 +473,31 @@ func streamOps(o *Out, r *rand.Rand, n int, thorough bool) {
 	poisons := []string{
 		"i = 0\ni++\np = &i\n*p = 50", "i = 5\ni += 1\np = &i\n*p = 77", "i = 3\ni--\np = &i\n*p = -9", "i = 2\ni *= 2\np = &i\n*p = 1000", "i = 7\ni -= 7\np = &i\n*p = 5",
 		"i = 1\ni |= 2\np = &i\n*p = 44", "i = 7\ni &= 3\np = &i\n*p = 45", "i = 10\ni /= 2\np = &i\n*p = 46", "i = 1\ni <<= 3\np = &i\n*p = 47", "n = len(\"abc\")\np = &n\n*p = 48",
+		"r = &(2000 + 48)\n*r = 1", "p = &(1 + 2)\n*p = 70", "p = &len(\"abcd\")\n*p = 71", "p = &(-(-2))\n*p = 72", "p = &(3 * 3)\n*p = 73", "p = &((1 + 4))\n*p = 74", "p = &(6 % 4)\n*p = 75",
+		"func f() { return 5 + 5 }\np = &f()\n*p = 76", "i = 20\ni++\nfunc g(q) { *q = 78 }\ng(&i)", "m = {\"k\": 10 + 1}\np = &m.k\n*p = 79", "a = [11 + 1]\np = &a[0]\n*p = 80",
 		"a = 2 + 4\np = &a\n*p = 100", "for i = 0; i < 5; i++ {\np = &i\n}\nj = 4\nj++\nq = &j\n*q = 99", "x = [1 + 1][0]\np = &x\n*p = 60", "func f() { return 1 + 2 }\nr = f()\nr++\np = &r\n*p = 61",
 	}
 	checks := []struct {
 		src  string
 		want int64
 	}{{"0 + 1", 1}, {"3 - 2", 1}, {"5 + 1", 6}, {"4 - 2", 2}, {"2 * 2", 4}, {"0 * 7", 0}, {"1 | 2", 3}, {"7 & 3", 3}, {"1 << 3", 8}, {"len(\"abc\")", 3}, {"2 + 4", 6}, {"4 + 1", 5}, {"1 + 1", 2}, {"1 + 2", 3}, {"3 + 1", 4},
-		{"n = 0\nfor i = 0; i < 3; i++ {\nn++\n}\nn", 3}, {"-(-1)", 1}, {"10 % 7", 3}, {"16 >> 2", 4}}
-	for _, ps := range poisons {
-		_ = runScript(ps, nil, nil)
+		{"n = 0\nfor i = 0; i < 3; i++ {\nn++\n}\nn", 3}, {"-(-1)", 1}, {"10 % 7", 3}, {"16 >> 2", 4},
+		{"2040 + 8", 2048}, {"len(\"abcd\")", 4}, {"-(-2)", 2}, {"3 * 3", 9}, {"6 % 4", 2}, {"5 + 5", 10}, {"20 + 1", 21}, {"10 + 1", 11}, {"11 + 1", 12}, {"40 + 1", 41}}
+	hostPoison := "[host] vm.Execute(e, \"i = 40; i++\"); p, _ := e.Addr(\"i\"); if p can be set: *p = 81"
+	for _, ps := range append([]string{hostPoison}, poisons...) {
+		if ps == hostPoison {
+			// the host side of the same history: the address the Env hands out for a variable bound to a small result
+			_ = runScript("i = 40\ni++", nil, func(e *env.Env) {
+				defer func() {
+					if a, err := e.Addr("i"); err == nil && a.Kind() == reflect.Ptr && !a.IsNil() && a.Elem().CanSet() && a.Elem().Kind() == reflect.Int64 {
+						a.Elem().SetInt(81)
+					}
+				}()
+				_, _ = vm.Execute(e, nil, "i = 40\ni++")
+			})
+		} else {
+			_ = runScript(ps, nil, nil)
+		}
 		for _, c := range checks {
 			out := runScript(c.src, nil, nil)
 			o.Sum.Evaluations++
